@@ -343,12 +343,47 @@ def c25(tier):
 # ------------------------------------------------------------------------------------------------
 # C18 / C20 (state-machine half)
 
-META_ACTIONS = ("CreateNew", "CreateExists", "RollKnown", "RollUnknown", "UpsertNew", "UpsertAgain", "Undecodable")
+META_ACTIONS = ("CreateNew", "CreateExists", "RollKnown", "RollOverflow", "RollUnknown", "UpsertNew", "UpsertAgain", "Undecodable")
 U64 = 2**64 - 1
 
 
-def meta_cases_from_tlc(printed):
-    return [{"id": "m%d" % i, "kind": "spec", "path": c["h"], "state": c["s"], "succ": c["x"]} for i, c in enumerate(printed)]
+def cfg_constant(cfg_path, name):
+    with open(cfg_path) as f:
+        m = re.search(r"^\s*%s\s*=\s*(\d+)\s*$" % re.escape(name), f.read(), re.M)
+    if not m:
+        raise C.ToolError("constant %s not found in %s" % (name, cfg_path))
+    return int(m.group(1))
+
+
+def count_unit(max_u64):
+    """Counts/offsets of a spec with u64 bound `max_u64` are instantiated as multiples of this unit:
+    sum * unit <= u64::MAX  <=>  sum <= max_u64, so the real checked_add fails exactly when the
+    spec's Overflows holds."""
+    unit = U64 // max_u64
+    assert max_u64 * unit <= U64 < (max_u64 + 1) * unit
+    return unit
+
+
+def _scale_topic(t, f):
+    return [t[0], t[1], t[2], f(t[3]), [[g, f(c)] for g, c in t[4]], t[5]]
+
+
+def _scale_state(st, f):
+    return {"T": [_scale_topic(t, f) for t in st["T"]], "N": st["N"]}
+
+
+def _scale_cmd(x, f):
+    y = list(x)
+    y[3] = f(y[3])
+    if len(y) > 6 and y[0] in ("C", "R"):
+        y[6] = [_scale_topic(t, f) for t in y[6]]
+    return y
+
+
+def meta_cases_from_tlc(printed, unit):
+    f = lambda v: v * unit
+    return [{"id": "m%d" % i, "kind": "spec", "path": [_scale_cmd(x, f) for x in c["h"]], "state": _scale_state(c["s"], f),
+             "succ": [_scale_cmd(x, f) for x in c["x"]]} for i, c in enumerate(printed)]
 
 
 def _enc_create(t, n):
@@ -366,19 +401,10 @@ def _enc_upsert(n, a):
     return (2).to_bytes(4, "little") + n.to_bytes(8, "little") + len(b).to_bytes(8, "little") + b
 
 
-def _decodes_to_big_roll(bs, limit=2**60):
-    """Avoidance guard for the quick tier: does this byte string decode (bincode layout, trailing
-    bytes allowed) to a RolloverTopic whose count is >= limit?"""
-    if len(bs) < 12 or int.from_bytes(bs[:4], "little") != 1:
-        return False
-    ln = int.from_bytes(bs[4:12], "little")
-    if ln > len(bs) - 12 or len(bs) < 12 + ln + 16:
-        return False
-    return int.from_bytes(bs[12 + ln + 8:12 + ln + 16], "little") >= limit
-
-
-def meta_random_cases(tier, rng):
-    """-> (tlc-validated sequences, extreme-value sequences, byte-string cases)"""
+def meta_random_cases(tier, rng, unit):
+    """-> (sequences validated by TLC, extreme-value sequences, byte-string cases). The TLC-validated
+    sequences are generated in spec units (u64 bound = MaxU64 of Trace_Metadata.cfg) and carry real
+    counts c * unit, so they run into the overflow rejection as often as the spec does."""
     thorough = tier == "thorough"
     seqs, extreme, bts = [], [], []
     pool = ["a", "b", "orders", "t_x_s_1", "", "café", "a b", "_s_"]
@@ -393,35 +419,31 @@ def meta_random_cases(tier, rng):
             if x < 0.15:
                 path.append(["C", rng.choice(names + ["zz"]), rng.choice(nodes_small), 0, ""])
             elif x < 0.70:
-                path.append(["R", rng.choice(names + ["zz"]) if rng.random() < 0.9 else "nope", rng.choice(nodes_small), rng.choice([0, 1, 2, 5, 1000]), ""])
+                path.append(["R", rng.choice(names + ["zz"]) if rng.random() < 0.9 else "nope", rng.choice(nodes_small),
+                             rng.choice([0, 1, 2, 5, 100, 400, 999, 1000]) * unit, ""])
             elif x < 0.90:
                 path.append(["U", "", rng.choice(nodes_small), 0, rng.choice(addrs)])
             else:
                 path.append(["X", "", 0, 0, ""])
         seqs.append({"id": "s%d" % i, "kind": "seq", "path": path, "trace": True})
-    # values up to u64::MAX; the cumulative offset stays below 2^64 unless `overflow`
+    # arbitrary values up to u64::MAX, overflow attempts included
     for i in range(200 if thorough else 40):
         names = [rng.choice(pool) + str(rng.randint(0, 3)) for _ in range(rng.randint(1, 3))]
-        budget = {t: U64 for t in names}
         path = [["C", t, rng.getrandbits(64), 0, ""] for t in names]
         for _ in range(rng.choice([5, 30, 120])):
             x = rng.random()
             t = rng.choice(names)
             if x < 0.7:
-                c = rng.choice([0, 1, budget[t], budget[t] // 2, rng.getrandbits(rng.choice([8, 32, 62, 64])) % (budget[t] + 1)])
-                c = min(c, budget[t])
-                budget[t] -= c
+                c = rng.choice([0, 1, U64, U64 // 2, 2**63, rng.getrandbits(rng.choice([8, 32, 62, 64]))])
                 path.append(["R", t, rng.choice([0, 1, U64, rng.getrandbits(64)]), c, ""])
             elif x < 0.85:
                 path.append(["U", "", rng.choice([0, U64, rng.getrandbits(64)]), 0, rng.choice(addrs + ["☃" * rng.randint(0, 50)])])
             else:
                 path.append(["C", t, rng.getrandbits(64), 0, ""])
         extreme.append({"id": "e%d" % i, "kind": "seq", "path": path, "trace": False})
-    if thorough:
-        # counts whose sum passes u64::MAX (DESIGN.md C18: thorough tier only)
-        for i, (c1, c2) in enumerate([(U64, 1), (2**63, 2**63), (U64, U64), (U64 - 5, 3)]):
-            path = [["C", "a", 1, 0, ""], ["R", "a", 2, c1, ""], ["R", "a", 3, c2, ""], ["R", "a", 1, 1, ""], ["R", "a", 1, 1, ""]]
-            extreme.append({"id": "ovf%d" % i, "kind": "seq", "path": path, "trace": False, "overflow": True})
+    for i, (c1, c2) in enumerate([(U64, 1), (2**63, 2**63), (U64, U64), (U64 - 5, 3), (2**63, 2**63 - 1)]):
+        path = [["C", "a", 1, 0, ""], ["R", "a", 2, c1, ""], ["R", "a", 3, c2, ""], ["R", "a", 1, 1, ""], ["R", "a", 1, 0, ""], ["R", "a", 1, 1, ""]]
+        extreme.append({"id": "ovf%d" % i, "kind": "seq", "path": path, "trace": False})
     # arbitrary byte strings after a prefix that creates topics
     for i in range(300 if thorough else 60):
         prefix = [["C", "a", 1, 0, ""], ["C", "b", 2, 0, ""], ["R", "a", 2, 3, ""], ["U", "", 1, 0, "x"]][:rng.randint(0, 4)]
@@ -432,7 +454,7 @@ def meta_random_cases(tier, rng):
                 bs = bytes(rng.getrandbits(8) for _ in range(rng.choice([0, 1, 3, 4, 5, 12, 13, 20, 29, 37, 64])))
             else:
                 valid = rng.choice([_enc_create(rng.choice(["a", "b", "c", ""]), rng.getrandbits(rng.choice([2, 64]))),
-                                    _enc_roll(rng.choice(["a", "b", "c"]), rng.getrandbits(rng.choice([2, 64])), rng.getrandbits(rng.choice([2, 16, 40]))),
+                                    _enc_roll(rng.choice(["a", "b", "c"]), rng.getrandbits(rng.choice([2, 64])), rng.getrandbits(rng.choice([2, 16, 40, 64]))),
                                     _enc_upsert(rng.getrandbits(rng.choice([2, 64])), rng.choice(addrs))])
                 b = bytearray(valid)
                 y = rng.random()
@@ -447,11 +469,15 @@ def meta_random_cases(tier, rng):
                 elif y < 0.85 and len(b) >= 12:
                     b[4:12] = rng.choice([U64, 2**40, 0, len(b)]).to_bytes(8, "little")
                 bs = bytes(b)
-            if not thorough and _decodes_to_big_roll(bs):
-                continue
             bl.append(bs.hex())
         bts.append({"id": "b%d" % i, "kind": "bytes", "path": prefix, "bytes": bl})
     return seqs, extreme, bts
+
+
+def _unscale(v, unit):
+    if v % unit:
+        raise ValueError("value %d is not a multiple of the count unit" % v)
+    return v // unit
 
 
 def trace_validate_metadata(groups, tag="c18v"):
@@ -494,7 +520,6 @@ def meta_div(viol, case):
     if isinstance(det, dict):
         p = det.get("panic")
         if p:
-            d["cause"] = "sealed_offset_overflow" if "overflow" in p else "other_panic"
             d["panic"] = p[:200]
         if isinstance(det.get("cmd"), list):
             d["cmd"] = det["cmd"][0]
@@ -510,12 +535,20 @@ def meta_run(pid, tier, snap):
     binp, info = build_dwpure()
     d = rundir(pid.lower() + ("snap" if snap else ""))
     mc, printed = model_check("Metadata", tier, need_actions=META_ACTIONS, timeout=3000)
-    spec_cases = meta_cases_from_tlc(printed)
+    tname = "thorough" if tier == "thorough" else "quick"
+    unit = count_unit(cfg_constant(os.path.join(C.SPEC, "MC_Metadata_%s.cfg" % tname), "MaxU64"))
+    spec_cases = meta_cases_from_tlc(printed, unit)
     if not spec_cases:
         raise C.ToolError("MC_Metadata printed no cases")
     rng = random.Random(C.seed() * 7919 + 18)
-    seqs, extreme, bts = meta_random_cases(tier, rng)
+    tunit = count_unit(cfg_constant(os.path.join(C.SPEC, "Trace_Metadata.cfg"), "MaxU64"))
+    seqs, extreme, bts = meta_random_cases(tier, rng, tunit)
     corp = corpus_cases(pid, tier)
+    for b in corp:
+        if b.get("units") == "spec":     # counts written in spec units of Trace_Metadata (u64 bound = MaxU64)
+            b["path"] = [_scale_cmd(x, lambda v: v * tunit) for x in b["path"]]
+            if "state" in b:
+                b["state"] = _scale_state(b["state"], lambda v: v * tunit)
     cases = corp + spec_cases + seqs + extreme + bts
     results = run_harness(binp, "meta", cases, d, extra=["--snap"] if snap else None)
     if len(results) != len(cases):
@@ -536,7 +569,13 @@ def meta_run(pid, tier, snap):
         groups = {}
         for c, r in zip(cases, results):
             if c.get("trace") and r.get("trace") is not None:
-                groups[c["id"]] = [(e["c"], e["r"], e["s"]) for e in r["trace"]]
+                # back to spec units (exact: every recorded count/offset is a multiple of the unit)
+                try:
+                    f = lambda x: _unscale(x, tunit)
+                    groups[c["id"]] = [(_scale_cmd(e["c"], f), e["r"], _scale_state(e["s"], f)) for e in r["trace"]]
+                except ValueError as ex:
+                    v.report(c["id"] + "_unit", {"kind": "state_mismatch", "case_kind": "seq"},
+                             {"case": c, "error": str(ex), "how": "a recorded count/offset is not a multiple of the count unit"})
         verd, tv = trace_validate_metadata(groups)
         byid = {c["id"]: c for c in cases}
         rejected = 0
@@ -557,6 +596,8 @@ def meta_run(pid, tier, snap):
     n_cmp = sum(r.get("n_compare", 0) for r in results)
     n_snap = sum(r.get("n_snap", 0) for r in results)
     rolled = sum(1 for c in spec_cases if any(x[0] == "R" and x[5] == "ROLLED" for x in c["path"]))
+    overflow_spec = sum(1 for c in spec_cases for x in c["succ"] if x[5] == "ERR_OVERFLOW")
+    overflow_real = sum(1 for r in results for e in (r.get("trace") or []) if e.get("r") == "ERR_OVERFLOW")
     sample = dict(spec_cases[len(spec_cases) // 2])
     sample["succ"] = sample["succ"][:4]
     cov = {
@@ -567,6 +608,8 @@ def meta_run(pid, tier, snap):
         "random_sequences": len(seqs), "extreme_value_sequences": len(extreme), "byte_string_cases": len(bts), "corpus_cases": len(corp),
         "byte_strings": sum(len(c["bytes"]) for c in bts),
         "evaluations": n_apply, "state_comparisons": n_cmp,
+        "count_unit": unit, "overflow_rejections_replayed_from_spec": overflow_spec,
+        "overflow_rejections_in_validated_random_sequences": overflow_real,
         "distinct_nontrivial": rolled + len(seqs) + len(extreme),
         "samples": [sample, {k: (x[:6] if isinstance(x, list) else x) for k, x in seqs[0].items()}],
         "harness": info,
@@ -583,15 +626,16 @@ def meta_run(pid, tier, snap):
                        "of the bounded space; every (state, command) pair TLC enumerated below EmitDepth is replayed on the real "
                        "Metadata::apply with returned value and full state compared; the property's invariants are also evaluated "
                        "directly on the real state after every command; random long sequences are validated step by step by TLC "
-                       "(Trace_Metadata); extreme values and arbitrary byte strings: no panic, invariants hold")
+                       "(Trace_Metadata, overflow rejections included); extreme values and arbitrary byte strings: no panic, "
+                       "invariants hold, a rejected command leaves the state unchanged")
     shutil.rmtree(d, ignore_errors=True)
     assumptions = SHIM_ASSUMPTIONS + [
         "undecodable commands exercise the shim's decoder plus the real error path of apply, not the real bincode crate",
         "full state is observed through the machine's own snapshot decoded as ClusterState and cross-checked with "
         "get_topic_state/all_node_addrs/sealed_count/segment_leader/get_node_addr",
     ]
-    if tier != "thorough":
-        assumptions.append("quick tier: sealed counts whose per-topic sum reaches 2^64 are not generated (thorough tier only, DESIGN.md C18)")
+    assumptions.append("the bounded models use a small u64 bound (MaxU64); counts and offsets are instantiated as multiples of "
+                       "floor(u64::MAX / MaxU64), so the real checked_add overflows exactly when the spec's does")
     if not info.get("overflow_checks"):
         assumptions.append("harness built without overflow checks")
     return v.finish("model_checking", cov, assumptions)
@@ -608,7 +652,7 @@ def c20_statemachine_half(tier):
 # ------------------------------------------------------------------------------------------------
 # C24
 
-CP_ACTIONS = ("ReadLen", "RejectLen", "ReadBody", "RejectUtf8", "Dispatch", "Respond")
+CP_ACTIONS = ("ReadLen", "RejectLen", "DiscardBody", "ReadBody", "RejectUtf8", "Dispatch", "Respond")
 SP, PP, GG, XX, BAD = 0, 1, 2, 3, 4
 MAX_FRAME_LEN = 64 * 1024
 # Unicode White_Space (what str::trim_end removes)
@@ -889,12 +933,9 @@ def c24(tier):
     binp, info = build_dwpure()
     d = rundir("c24")
     tname = "thorough" if tier == "thorough" else "quick"
-    # 1. design as client.rs is written, all streams; contract asserted where the design is in scope
+    # the design-level server as client.rs is written, on all streams, against the contract
     mc, printed = model_check("ClientProto", tier, cfg=os.path.join(C.SPEC, "MC_ClientProto_%s_code.cfg" % tname),
                               need_actions=CP_ACTIONS, timeout=3000)
-    # 2. the contract is satisfiable: a server that discards oversized bodies conforms on every stream
-    mcf, _ = model_check("ClientProto", tier, cfg=os.path.join(C.SPEC, "MC_ClientProto_%s_fixed.cfg" % tname),
-                         need_actions=CP_ACTIONS, timeout=3000)
     if not printed:
         raise C.ToolError("MC_ClientProto printed no cases")
     rng = random.Random(C.seed() * 7919 + 24)
@@ -912,9 +953,8 @@ def c24(tier):
     if len(results) != len(cases):
         raise C.ToolError("dwpure proto: %d results for %d cases" % (len(results), len(cases)))
     design_bad = sum(1 for c in cases if not c.get("design_ok", True))
-    both_bad = design_only = code_only = unexplained = 0
+    both_bad = design_only = code_only = 0
     kinds = {}
-    bad = []
     for c, r in zip(cases, results):
         if r.get("id") != c["id"]:
             raise C.ToolError("dwpure proto: result order mismatch at %s" % c["id"])
@@ -927,20 +967,14 @@ def c24(tier):
             code_only += 1
         else:
             both_bad += 1
-        div = cp_div(c, r)
-        if c.get("design_ok", True) and not div["oversized_before_divergence"]:
-            unexplained += 1
-        bad.append((c, r, div))
-    # divergences that no oversized frame precedes are reported first (the others share one cause)
-    bad.sort(key=lambda x: (x[2]["oversized_before_divergence"], x[0].get("src") != "corpus"))
-    for c, r, div in bad:
-        v.report(c["id"] + "_" + str(r["kind"]), div,
+        v.report(c["id"] + "_" + str(r["kind"]), cp_div(c, r),
                  {"case": c, "result": r, "how": "dwpure proto on this one case line (chunks = client bytes in delivery order)"})
-    if unexplained:
-        # (streams on which the design conforms only because one symbol stands for a whole byte string,
-        # while the real server re-reads the bytes of an oversized body, are not drift)
-        v.drift.append("%d stream(s) without an oversized frame on which the design-level server of ClientProto conforms but "
-                       "client.rs does not: the design spec no longer describes the code" % unexplained)
+    if design_bad:
+        v.drift.append("the design-level server of ClientProto violates the contract on %d stream(s) (%d of them conform on the real "
+                       "code): the design spec no longer describes client.rs" % (design_bad, design_only))
+    if code_only:
+        v.drift.append("%d stream(s) on which the design-level server of ClientProto conforms but client.rs does not: the design "
+                       "spec no longer describes the code" % code_only)
     classes = {}
     for c in cases:
         for f in c.get("frames", []):
@@ -950,7 +984,6 @@ def c24(tier):
         "states": mc["states"], "transitions": mc["transitions"], "tlc_wall_s": mc["wall_s"], "tlc_cfg": mc["cfg"],
         "tlc_cached": mc["cached"], "tlc_coverage": {a: mc["coverage"].get(a) for a in CP_ACTIONS},
         "corpus_cases": len(corp),
-        "tlc_fixed_server": {"states": mcf["states"], "transitions": mcf["transitions"], "cfg": mcf["cfg"], "wall_s": mcf["wall_s"]},
         "tlc_random": rstats,
         "traces_validated_against_impl": n_spec,
         "random_cases": len(cases) - n_spec - len(corp),
@@ -959,7 +992,6 @@ def c24(tier):
         "distinct_nontrivial": len(set(tuple(c.get("symbols", [])) for c in cases if len(c.get("frames", [])) >= 3)),
         "design_level_counterexamples": design_bad,
         "design_and_code_violate": both_bad, "design_only_violates_in_this_instantiation": design_only, "code_only_violates": code_only,
-        "code_only_violates_without_oversized_frame": unexplained,
         "divergence_kinds": kinds,
         "samples": [sample],
         "rule": "TLC runs the design-level server loop of client.rs on every stream of <= MaxLen symbols and checks it against the "
@@ -972,7 +1004,8 @@ def c24(tier):
     return v.finish("model_checking", cov, SHIM_ASSUMPTIONS + [
         "the data plane behind client.rs is a test double (per-topic FIFO); PUT still goes through the real wal_key and forward_append",
         "one symbol of the model stands for the 4-byte length prefix or for a byte string of its class; a length above MaxFrame "
-        "stands for a length above MAX_FRAME_LEN (instantiated as 65537..131072 with the announced body present)",
+        "stands for a length above MAX_FRAME_LEN (instantiated as 65537..131072 with the announced body present, filled with "
+        "zero bytes, text, well-formed PUT frames or a swallowing length prefix)",
         "one connection per stream; the in-memory TCP delivers bytes in the chosen chunks and never fails",
     ])
 
@@ -1025,13 +1058,14 @@ def selftest():
         fails.append("C25: judge found %d+%d problems in 2 corrupted cases" % (len(viol), len(drift)))
     # ---- C18: corrupt an expected sealed count, an expected returned value, a successor patch
     _, mprinted = model_check("Metadata", "quick", need_actions=META_ACTIONS, timeout=3000)
-    mcases = meta_cases_from_tlc(mprinted)
+    mcases = meta_cases_from_tlc(mprinted, count_unit(cfg_constant(os.path.join(C.SPEC, "MC_Metadata_quick.cfg"), "MaxU64")))
+    tunit = count_unit(cfg_constant(os.path.join(C.SPEC, "Trace_Metadata.cfg"), "MaxU64"))
     base = next(c for c in mcases if any(t[4] for t in c["state"]["T"]) and len(c["path"]) >= 2)
     c_state = json.loads(json.dumps(base))
     c_state["id"] = "st_state"
     for t in c_state["state"]["T"]:
         if t[4]:
-            t[4][0][1] += 1          # flip a sealed count
+            t[4][0][1] += 1          # change a sealed count
             break
     c_res = json.loads(json.dumps(base))
     c_res["id"] = "st_res"
@@ -1055,9 +1089,12 @@ def selftest():
             fails.append("C18: corrupted case %s not rejected with %s (got %s)" % (r["id"], want, [x["kind"] for x in r["viol"]]))
     # trace validation: a corrupted recorded state must be rejected at that step
     seq = {"id": "st_seq", "kind": "seq", "trace": True,
-           "path": [["C", "a", 1, 0, ""], ["R", "a", 2, 5, ""], ["U", "", 3, 0, "x"], ["R", "a", 3, 7, ""], ["X", "", 0, 0, ""]]}
+           "path": [["C", "a", 1, 0, ""], ["R", "a", 2, 5 * tunit, ""], ["U", "", 3, 0, "x"], ["R", "a", 3, 7 * tunit, ""], ["X", "", 0, 0, ""],
+                    ["R", "a", 1, 990 * tunit, ""]]}
     tr = run_harness(binp, "meta", [seq], d)[0]["trace"]
-    good_steps = [(e["c"], e["r"], e["s"]) for e in tr]
+    if tr[-1]["r"] != "ERR_OVERFLOW":
+        fails.append("C18: a rollover past u64::MAX returned %s, self-test expects the rejection" % tr[-1]["r"])
+    good_steps = [(_scale_cmd(e["c"], lambda x: _unscale(x, tunit)), e["r"], _scale_state(e["s"], lambda x: _unscale(x, tunit))) for e in tr]
     bad_steps = json.loads(json.dumps(good_steps))
     bad_steps[3][2]["T"][0][3] += 1          # cumulative offset after the 4th command
     verd, _ = trace_validate_metadata({"good": good_steps, "bad": [tuple(x) for x in bad_steps]}, tag="selftest-tv")
@@ -1092,11 +1129,18 @@ def selftest():
     for r, want in zip(pres[1:], ("wrong_response", "payload_mismatch", "extra_responses")):
         if r["ok"] or r["kind"] != want:
             fails.append("C24: corrupted case %s not rejected with %s (got %s)" % (r["id"], want, r["kind"]))
+    # ---- C24 vacuity guard: the contract must reject the server that leaves an oversized body in the socket
+    wd = os.path.join(d, "mutant")
+    rc, out, _ = run_tlc(os.path.join(C.SPEC, "MC_ClientProto.tla"), os.path.join(C.SPEC, "MC_ClientProto_mutant_nodiscard.cfg"), wd,
+                         workers=4, timeout=900)
+    if not re.search(r"Error: Invariant (InvConforms|InvPrefix) is violated", out):
+        fails.append("C24: TLC does not reject the non-discarding server (MC_ClientProto_mutant_nodiscard.cfg): the contract is vacuous\n"
+                     + "\n".join(x for x in out.splitlines()[-15:] if not x.startswith('<<"')))
     shutil.rmtree(d, ignore_errors=True)
     if fails:
         raise C.ToolError("binding self-test failed:\n  " + "\n  ".join(fails))
     _SELFTEST_DONE = True
-    C.log("[selftest] binding self-test ok (C25, C18 incl. trace validation, C20, C24)")
+    C.log("[selftest] binding self-test ok (C25, C18 incl. trace validation, C20, C24 incl. mutant server rejected by TLC)")
 
 
 def replay(pid, path):
